@@ -33,6 +33,9 @@ func StdUniverse() *Universe {
 		u.add(&Decl{Pkg: pkg, Name: "NM", Under: M(B("string"), B("int"))})
 		u.add(&Decl{Pkg: pkg, Name: "NS", Under: S(B("int"))})
 	}
+	// a type owned by a third package (neither the source's, the target's nor the converter's)
+	u.add(&Decl{Pkg: "third", Name: "T3", Under: St(F("V", B("int")), F("W", B("string")))})
+	u.add(&Decl{Pkg: "third", Name: "ID3", Under: B("int")})
 	// key enum whose members have different values on both sides (a converted key prints differently from its source)
 	u.add(&Decl{Pkg: "in", Name: "KE", Under: B("int"), Consts: []Const{{"KA", "1"}, {"KB", "2"}}})
 	u.add(&Decl{Pkg: "out", Name: "KE", Under: B("int"), Consts: []Const{{"KA", "11"}, {"KB", "12"}}})
@@ -79,6 +82,8 @@ func (u *Universe) ExoticLeaves() []*Ty {
 		&Ty{K: Struct, Fields: []Field{{Name: "A", T: B("int"), Tag: `json:"a,omitempty"`}}},
 		&Ty{K: Struct, Fields: []Field{{Name: "A", T: B("int"), Tag: "q`uote"}, {Name: "B", T: Fn("(...string)"), Tag: `json:"b"`}}},
 		&Ty{K: Struct, Fields: []Field{{Name: "P", T: p, Embedded: true}, {Name: "Z", T: B("int")}}},
+		// third-package types, alone and inside an unnamed struct
+		N(u.Get("third", "T3")), N(u.Get("third", "ID3")), St(F("T", N(u.Get("third", "T3"))), F("I", N(u.Get("third", "ID3")))),
 		// boundary lengths of fixed-size arrays (the main alphabet only has length 2)
 		A(0, B("int")), A(0, p), A(1, B("int")), A(0, B("string")),
 	)
